@@ -357,8 +357,9 @@ def run(ctx):
                "image usage is a page-level attribute (MediaWiki's imagelinks table): a pinned old revision uses the images of its page",
                "gevent's callback queue is FIFO (the dispatcher's wake-up precedes the pool's empty notification; asserted on every trace)",
                "bots are recognised by name (/bot$/i), as core/authors.py and sapi.get_contributors do",
-               "responses are released one at a time when the loop is idle, in a seeded order: schedules in which a response "
-               "overtakes a runnable greenlet are explored by the model (Eager=FALSE plan) but not by real runs")
+               "responses are released only when the loop is idle, in a seeded order (one at a time, or up to three at once with "
+               "schedule policy 'burst'): most real schedules are those of gevent's callback queue; unrestricted interleavings "
+               "are explored by the model (Eager=FALSE plan)")
 
 
 def replay(ctx, path):
